@@ -536,7 +536,83 @@ def r9_load_adopts_generation(ctx, cfg):
                   "the only valid checkpoint in place" % (ctx._stable(b.id), "/".join(sorted(want))), c.loc(), sample={"counter_fields": sorted(want)})
 
 
+def r10_no_self_delete(ctx, cfg):
+    """generation rotation: the saver writes <helper>(dir, A) and then removes <helper>(dir, B). The two names come out of the same helper, so they
+    are the same file whenever A == B (a loader may set the current generation to what the 'previous' field still holds). The removal must be
+    dominated by the not-equal edge of a comparison of A with B."""
+    rule = "C06.R10"
+    ctx.rule(rule, "a saver that writes <path helper>(.., A) and removes <path helper>(.., B) removes only on the A != B edge (it never deletes the file it has just written)")
+    from .lib import bool_switches
+    n = 0
+    for b in ctx.prog.bodies.values():
+        if b.krate not in cfg["krates"] or not re.search(cfg["state_modules"], b.file or "") or b.id in cfg.get("not_state", {}):
+            continue
+        ws = [c for c in b.calls if (WRITE_WHOLE.search(c.name) or CREATE.search(c.name) or RENAME.search(c.name)) and c.bb in b.live_blocks()]
+        ds = [c for c in b.calls if REMOVE.search(c.name) and c.bb in b.live_blocks()]
+        if not ws or not ds:
+            continue
+
+        def helper_of(call):
+            """(helper call, fields its non-directory arguments derive from) for the path operand of a fs call"""
+            arg = call.args[-1] if RENAME.search(call.name) else call.args[0]
+            roots = path_roots(b, arg)[0]
+            for h in b.calls:
+                if h.local and h.dest and h.dest[0] in roots and len(h.args) >= 2 and h.bb in b.live_blocks():
+                    flds = set()
+                    for a in h.args[1:]:
+                        l = op_local(a)
+                        if l is None:
+                            continue
+                        sl = Slice(b, [l], transparent=True)
+                        flds |= {f[-1] for f in sl.fields if f and not str(f[-1]).startswith("upvar:")}
+                    return h, flds
+            return None, set()
+        wh = [(w,) + helper_of(w) for w in ws]
+        for d in ds:
+            hd, fd = helper_of(d)
+            if hd is None or not fd:
+                continue
+            for (w, hw, fw) in wh:
+                if hw is None or hw.name != hd.name or hw is hd or not fw or fw == fd:
+                    continue
+                if not (d.bb in b.reachable(b.succ[w.bb])):
+                    continue
+                n += 1
+                ctx.saw(b)
+                only_d, only_w = fd - fw, fw - fd
+                guarded = False
+                for (i, j, st_) in b.stmts():
+                    r = st_["r"]
+                    if r["k"] != "Bin" or r["op"] not in ("Ne", "Eq") or len(st_["p"]) != 1:
+                        continue
+                    sides = []
+                    for o in r["o"]:
+                        l = op_local(o)
+                        fl = set()
+                        if l is not None:
+                            sl = Slice(b, [l], transparent=True)
+                            fl = {f[-1] for f in sl.fields if f and not str(f[-1]).startswith("upvar:")}
+                        else:
+                            fl = {e["n"] for e in (o.get("p") or [])[1:] if isinstance(e, dict) and "n" in e and not str(e["n"]).startswith("upvar:")} if o["k"] in ("cp", "mv") else set()
+                        sides.append(fl)
+                    if not ((sides[0] & only_d and sides[1] & only_w) or (sides[0] & only_w and sides[1] & only_d)):
+                        continue
+                    for (sbb, tt, ft) in bool_switches(b, st_["p"][0]):
+                        ne_edge = tt if r["op"] == "Ne" else ft
+                        other = ft if r["op"] == "Ne" else tt
+                        if ne_edge != other and not (set(b.pred[ne_edge]) - {sbb}) and b.dominates(ne_edge, d.bb):
+                            guarded = True
+                ctx.check(guarded, rule, [b.id, "never-the-file-just-written", hd.name.split("::")[-1]],
+                          "the removal of %s(.., %s) is dominated by the not-equal edge of a comparison with %s" % (hd.name.split("::")[-1], "/".join(sorted(only_d)), "/".join(sorted(only_w))),
+                          "%s writes %s(.., %s) and afterwards removes %s(.., %s) without establishing that the two differ: when both fields hold the same "
+                          "number (a loader set the current generation to the one the 'previous' field still names) the checkpoint deletes the file it "
+                          "has just written and the state is gone" % (ctx._stable(b.id), hw.name.split("::")[-1], "/".join(sorted(only_w)), hd.name.split("::")[-1], "/".join(sorted(only_d))),
+                          d.loc(), sample={"write": w.loc(), "remove": d.loc(), "written_from": sorted(fw), "removed_from": sorted(fd)})
+    ctx.floor(rule, n, 1, "savers that write and remove names built by one path helper")
+
+
 def run(ctx, cfg=CFG):
+    r10_no_self_delete(ctx, cfg)
     r9_load_adopts_generation(ctx, cfg)
     r8_sweep_after_success(ctx, cfg)
     r7_loaders_skip_temp(ctx, cfg)
